@@ -117,6 +117,21 @@ func handOffRule(c *Ctx, rels []string, floorOps, floorDrains, floorCompactions 
 			c.Check(why == "", "compaction", SSAFuncKey(fn)+"@"+shortKey(VKey(st.Addr)), st.Pos(), "every entry is visited and either kept or handed off", why)
 		}
 	}
+	nHead := 0
+	for _, fn := range nocFns(p, rels) {
+		if !reach[origin(fn)] {
+			continue
+		}
+		checked, bad := headConsumedFindings(fn)
+		nHead += checked
+		for _, in := range bad {
+			c.Fail("head-consumed", SSAFuncKey(fn)+"@PeekIncoming", in.Pos(), "a message found at the head of an incoming port can be left there for a reason other than the next queue being full: if what would free the stage can only arrive behind that head (later flits of partly assembled messages), the port is blocked for good and nothing behind it is ever delivered")
+		}
+		if checked > 0 && len(bad) == 0 {
+			c.Ok("head-consumed", SSAFuncKey(fn)+"@PeekIncoming", fn.Pos(), "a peeked head is dequeued unless the next queue is full")
+		}
+	}
+	c.Check(nHead >= 1, "head-consumed", "instances", token.NoPos, "peek sites found ("+itoa(nHead)+")", "no PeekIncoming site found")
 	c.Check(nOps >= floorOps, "hand-off", "instances", token.NoPos, "enough hand-off operations recognised", "only "+itoa(nOps)+" hand-off operations were recognised (expected at least "+itoa(floorOps)+"): the stage idioms are no longer understood")
 	c.Check(nDrain >= floorDrains, "prefix-drain", "instances", token.NoPos, "consumed-prefix truncations recognised", "only "+itoa(nDrain)+" consumed-prefix truncations recognised (expected "+itoa(floorDrains)+")")
 	c.Check(nComp >= floorCompactions, "compaction", "instances", token.NoPos, "compactions recognised", "only "+itoa(nComp)+" compactions recognised (expected "+itoa(floorCompactions)+")")
